@@ -28,10 +28,37 @@ def emit(ev):
 _models = {}
 
 
+VSCALAR = '''r"""history probe: a pure-Python definition whose Iq takes one q at a time (no `Iq.vectorized`)"""
+import math
+from numpy import inf
+name = "vscalar"
+title = "history probe"
+description = "history probe"
+category = "shape:probe"
+parameters = [
+    ["radius", "Ang", 40.0, [0, inf], "volume", "probe"],
+    ["slope", "", 2.0, [-inf, inf], "", "probe"],
+]
+def form_volume(radius):
+    return 4.0/3.0*math.pi*radius**3
+def Iq(q, radius, slope):
+    return math.exp(-(q*radius)**2/3.0)*(1.0 + slope*q)
+'''
+
+
 def model(name, reload=False):
     from sasmodels import core
     if reload or name not in _models:
-        _models[name] = core.load_model(name, dtype="double", platform="dll")
+        path = name
+        if name == "vscalar":
+            import os
+            path = os.path.join(os.getcwd(), "vscalar.py")
+            if not os.path.exists(path):
+                tmp = path + ".%d" % os.getpid()
+                with open(tmp, "w") as f:
+                    f.write(VSCALAR)
+                os.replace(tmp, path)
+        _models[name] = core.load_model(path, dtype="double", platform="dll")
     return _models[name]
 
 
